@@ -58,8 +58,11 @@ def run_history(ctx, r, evs):
     tokens, steps = [], []
     sent_flags = {}
     obs = []          # (event label, seq before, seq after, written frames [(sender, raw)])
+    run_history.times = []   # virtual time (s) after each event, parallel to `obs`
     try:
         for kind, arg in evs:
+            if r.random() < 0.35:
+                w.loop.nudge(r.choice([0.2, 0.5, 0.8]))      # virtual time passes between events (no timer fires)
             m = w.mark()
             before = w.p._pack_seq
             if kind == "send":
@@ -99,6 +102,7 @@ def run_history(ctx, r, evs):
             steps.append(vloop.canon_step(entries))
             writes = [bytes.fromhex(e[1:]) for e in entries if e.startswith("W")]
             obs.append((label, before, w.p._pack_seq, [x for x in writes if not x[5] & 1]))
+            run_history.times.append(w.loop.time())
         final_seq = w.p._pack_seq
     finally:
         w.shutdown()
@@ -206,6 +210,44 @@ def run(ctx):
         ctx.exhaustive = True
         ctx.notes.append("exhaustive: all %d histories of depth 5 over 8 event kinds" % n)
     drive(ctx, hs, lambda ctx, evs, tokens, obs, sf, steps: check_c08(ctx, evs, tokens, obs, sf))
+    reuse_scenarios(ctx)
+
+
+def reuse_scenarios(ctx):
+    """The same command object transmitted several times (a retry loop in application code): every transmission
+    builds its frame with `to_frame()` and must be stamped with exactly the current number - whatever was stamped on
+    earlier transmissions of that object - also across close + reconnect."""
+    import zigpy_zboss.commands as c
+    r = ctx.rng
+    for n in range(ctx.scale(6, 60)):
+        cmds = [c.NcpConfig.GetModuleVersion.Req(TSN=r.randrange(255)), c.NcpConfig.GetZigbeeRole.Req(TSN=r.randrange(255))]
+        w = vloop.LinkWorld()
+        expect, hist = 0, []
+        try:
+            for k in range(r.randrange(5, 12)):
+                cmd = r.choice(cmds)
+                if r.random() < 0.15:
+                    w.close(); w.reconnect(); expect = 0; hist.append("close+reconnect")
+                m = w.mark()
+                w.start_send(k, cmd.to_frame())
+                raws = [bytes.fromhex(e[1:]) for e in w.since(m) if e.startswith("W")]
+                hist.append("send %s" % type(cmd).__qualname__)
+                for raw in raws:
+                    if len(raw) > 7 and (raw[5] != (0xC0 | (expect << 2)) or streams.crc8(raw[2:6]) != raw[6]):
+                        ctx.counterexample("seq-stamp-reused-command", dict(history=list(hist)),
+                                           dict(flags=0xC0 | (expect << 2), crc8="valid"),
+                                           dict(flags=raw[5], crc8_valid=streams.crc8(raw[2:6]) == raw[6]),
+                                           "a command object transmitted again is not stamped with the current sequence number")
+                if r.random() < 0.8:
+                    w.rx(streams.ack(expect)); expect = expect % 3 + 1; hist.append("ACK(current)")
+                else:
+                    while not w.tasks[k].done() and w.tick():
+                        pass
+                    hist.append("expiry")
+            ctx.case(("reuse", tuple(hist)), sample=dict(history=hist[:8]))
+            ctx.count("reuse-scenario")
+        finally:
+            w.shutdown()
 
 
 def search(ctx):
